@@ -10,7 +10,10 @@
 (* Grain: one step = one clock cycle.  Outputs of a cycle are functions of *)
 (* the state *before* the cycle's inputs take effect (registered outputs). *)
 (*   Env  : trigger (any cycle, also during a capture and after complete), *)
-(*          input word d, read address addr < Depth.                       *)
+(*          input word d, read address (addresses >= Depth read nothing    *)
+(*          defined), rst = synchronous reset of the ILA's clock domain in *)
+(*          any cycle (the ILA returns to idle, complete is cleared; the   *)
+(*          delay line's contents are unknown afterwards).                 *)
 (*   Ref  : a delay line of Pre words, a write index, the buffer `mem`.    *)
 (*          The capture cycles are the Depth cycles following an accepted  *)
 (*          trigger (a trigger is accepted iff no capture is in progress). *)
@@ -43,14 +46,16 @@ VARIABLES Depth,      \* configuration: sample_depth (any value >= 1, also non p
           in,         \* Env: [trigger, d, addr] of the last cycle
           out,        \* outputs of the last cycle [sampling, complete]
           hist,       \* ghost: every input word, hist[k] = d of cycle k
-          trigT       \* ghost: cycle number of the last accepted trigger (0: none yet)
+          trigT,      \* ghost: cycle number of the last accepted trigger (0: none yet)
+          rstT        \* ghost: cycle number of the last reset (0: none yet)
 
-vars == <<Depth, Pre, capturing, n, dl, mem, done, cmp, lag, ra, rstab, in, out, hist, trigT>>
+vars == <<Depth, Pre, capturing, n, dl, mem, done, cmp, lag, ra, rstab, in, out, hist, trigT, rstT>>
 
 Bool == {TRUE, FALSE}
-Inputs == [trigger : Bool, d : Data, addr : 0..(Depth - 1)]
+Inputs == [trigger : Bool, d : Data, addr : 0..(Depth - 1), rst : {FALSE}]
 
-ResetWord == 0          \* value of the delay registers / buffer after reset
+ResetWord == 0          \* value of the delay registers / buffer after power-up
+Unknown == -1           \* a delay-line word whose value the property does not fix (input from before a reset)
 
 InitWith(depth, pretrig) ==
         /\ Depth = depth /\ Pre = pretrig
@@ -59,9 +64,9 @@ InitWith(depth, pretrig) ==
         /\ mem = [k \in 0..(depth - 1) |-> ResetWord]
         /\ done = FALSE /\ cmp = FALSE /\ lag = 0
         /\ ra = 0 /\ rstab = 0
-        /\ in = [trigger |-> FALSE, d |-> ResetWord, addr |-> 0]
+        /\ in = [trigger |-> FALSE, d |-> ResetWord, addr |-> 0, rst |-> FALSE]
         /\ out = [sampling |-> FALSE, complete |-> FALSE]
-        /\ hist = <<>> /\ trigT = 0
+        /\ hist = <<>> /\ trigT = 0 /\ rstT = 0
 
 Init == \E c \in Configs : InitWith(c \div 10, c % 10)
 
@@ -73,10 +78,10 @@ CompleteOK(c) == /\ (c => done)                          \* never before the las
                  /\ (cmp /\ done => c)                   \* once raised it stays until the next accepted trigger
                  /\ (done /\ lag >= MaxLag => c)         \* and it is raised
 
-ReadChecked == rstab >= 2                                \* address held for two cycles while complete
+ReadChecked == rstab >= 2 /\ ra < Depth /\ mem[ra] # Unknown    \* address held for two cycles while complete
 ReadValue   == mem[ra]
 
-Accepts(i) == i.trigger /\ ~capturing                    \* a trigger during a capture is ignored
+Accepts(i) == i.trigger /\ ~capturing /\ ~i.rst         \* a trigger during a capture (or a reset) is ignored
 
 (* One clock cycle with inputs i; c = `complete` output observed/produced in this cycle. *)
 Step(i, c) ==
@@ -87,17 +92,18 @@ Step(i, c) ==
   IN /\ UNCHANGED <<Depth, Pre>>
      /\ in' = i
      /\ out' = [sampling |-> Sampling, complete |-> c]
-     /\ dl' = IF Pre = 0 THEN dl ELSE Append(Tail(dl), i.d)
+     /\ dl' = IF i.rst THEN [k \in 1..Pre |-> Unknown] ELSE IF Pre = 0 THEN dl ELSE Append(Tail(dl), i.d)
      /\ mem' = IF capturing THEN [mem EXCEPT ![n] = word] ELSE mem
-     /\ capturing' = IF capturing THEN ~last ELSE i.trigger
-     /\ n' = IF capturing THEN (IF last THEN 0 ELSE n + 1) ELSE 0
-     /\ done' = done1
-     /\ cmp' = cmp1
-     /\ lag' = IF done1 /\ ~cmp1 THEN lag + 1 ELSE 0
+     /\ capturing' = IF i.rst THEN FALSE ELSE IF capturing THEN ~last ELSE i.trigger
+     /\ n' = IF i.rst THEN 0 ELSE IF capturing THEN (IF last THEN 0 ELSE n + 1) ELSE 0
+     /\ done' = (~i.rst /\ done1)
+     /\ cmp' = (~i.rst /\ cmp1)
+     /\ lag' = IF ~i.rst /\ done1 /\ ~cmp1 THEN lag + 1 ELSE 0
      /\ ra' = i.addr
-     /\ rstab' = IF c /\ ~Accepts(i) THEN (IF i.addr = ra THEN (IF rstab >= 2 THEN 2 ELSE rstab + 1) ELSE 1) ELSE 0
+     /\ rstab' = IF c /\ ~Accepts(i) /\ ~i.rst THEN (IF i.addr = ra THEN (IF rstab >= 2 THEN 2 ELSE rstab + 1) ELSE 1) ELSE 0
      /\ hist' = Append(hist, i.d)
      /\ trigT' = IF Accepts(i) THEN Len(hist) + 1 ELSE trigT
+     /\ rstT' = IF i.rst THEN Len(hist) + 1 ELSE rstT
 
 (* cycles named by what happens in them *)
 IdleCycle      == \E i \in Inputs, c \in Bool : ~capturing /\ ~i.trigger /\ CompleteOK(c) /\ Step(i, c)
@@ -105,28 +111,33 @@ TriggerCycle   == \E i \in Inputs, c \in Bool : ~capturing /\ i.trigger /\ Compl
 CaptureCycle   == \E i \in Inputs, c \in Bool : capturing /\ ~i.trigger /\ CompleteOK(c) /\ Step(i, c)
 IgnoredTrigger == \E i \in Inputs, c \in Bool : capturing /\ i.trigger /\ CompleteOK(c) /\ Step(i, c)
 
-Next == IdleCycle \/ TriggerCycle \/ CaptureCycle \/ IgnoredTrigger
+\* (the exhaustive model explores one reset per behaviour, in any cycle, with quiet other inputs)
+ResetCycle     == /\ rstT = 0
+                  /\ \E i \in Inputs, c \in Bool : ~i.trigger /\ i.addr = 0 /\ CompleteOK(c) /\ Step([i EXCEPT !.rst = TRUE], c)
+
+Next == IdleCycle \/ TriggerCycle \/ CaptureCycle \/ IgnoredTrigger \/ ResetCycle
 
 Spec == Init /\ [][Next]_vars
 
 -----------------------------------------------------------------------------
 (* Prop *)
-TypeOK == /\ capturing \in Bool /\ n \in 0..(Depth - 1) /\ done \in Bool /\ cmp \in Bool
+TypeOK == /\ capturing \in Bool /\ n \in 0..(Depth - 1) /\ done \in Bool /\ cmp \in Bool /\ rstT <= Len(hist)
           /\ Len(dl) = Pre /\ lag \in 0..MaxLag
 
-HistAt(k) == IF k >= 1 /\ k <= Len(hist) THEN hist[k] ELSE ResetWord
+HistAt(k) == IF k > rstT /\ k >= 1 /\ k <= Len(hist) THEN hist[k] ELSE IF rstT = 0 THEN ResetWord ELSE Unknown
 
 \* exactly the Depth consecutive samples following the trigger, delayed by Pre cycles
 CapturedWindow == done => \A j \in 0..(Depth - 1) : mem[j] = HistAt(trigT + 1 + j - Pre)
 \* while capturing, the part already stored is right as well (nothing is written out of order)
 PartialWindow == capturing => \A j \in 0..(n - 1) : mem[j] = HistAt(trigT + 1 + j - Pre)
 \* the capture takes exactly Depth cycles after the trigger cycle
-CaptureLength == /\ (capturing => Len(hist) = trigT + n)
+CaptureLength == /\ (capturing => Len(hist) = trigT + n /\ trigT > rstT)
                  /\ (done /\ ~capturing => Len(hist) >= trigT + Depth)
 CompleteImpliesDone == (cmp => done) /\ ~(capturing /\ done)
 \* a trigger during a capture disturbs nothing
 TriggerDuringCaptureIgnored ==
     [][(capturing /\ in'.trigger) => (trigT' = trigT /\ (capturing' => n' = n + 1))]_vars
+ResetReturnsToIdle == [][in'.rst => (~capturing' /\ ~done' /\ ~cmp')]_vars
 \* the buffer only changes in capture cycles
 BufferStableOutsideCapture == [][~capturing => mem' = mem]_vars
 
